@@ -19,7 +19,7 @@ from pyvc.spec import Contract, LoopSpec
 from pyvc.smt import Val, RID, SVs, BV, NONE, mk_bool, mk_ref, mk_str
 from pyvc.state import SV
 from pyvc.repo import Ty
-from contracts.agg_common import A, BASE_CALLS, TYPES as AGG_TYPES, noop, opaque
+from contracts.agg_common import A, BASE_CALLS, TYPES as AGG_TYPES, noop, opaque, disconnect_notification
 
 PROP = "C28"
 LEVEL = "proof"
@@ -133,7 +133,7 @@ KNOWN0 = "old(has_key(self._engine_data_map, engine_id))"
 disconnected = Contract(
     target=A + "FromEngine.engine_disconnected", types=dict(T, engine_id="str"), ghost_init=slot_axioms,
     requires=[KEYED, "engine_id != ''", "table_wf()"],
-    calls=dict(BASE_CALLS, **{"*.store_recent_engine": store_call, "self.publish_engine_disconnected_notification": noop}),
+    calls=dict(BASE_CALLS, **{"*.store_recent_engine": store_call, "self.publish_engine_disconnected_notification": disconnect_notification}),
     raises={},
     ensures=[("known-engine:row-carries-the-active-run-id",
               f"implies({KNOWN0} and old(self._engine_data_map[engine_id]._run_data is not None), "
@@ -233,7 +233,10 @@ def replay(obligation, witness):
     """Native oracle: the real FromEngine / Aggregator.shutdown / RecentEngineRepository on an in-memory sqlite database."""
     import contracts.c28_native as n
     for s in n.ALL:
-        r = s()
+        try:
+            r = s()
+        except Exception as ex:            # a scenario that cannot even complete on the real classes is a failing input too
+            return {"confirmed": True, "violated": True, "scenario_raised": f"{type(ex).__name__}: {ex}"}
         if r["violated"]:
             return {"confirmed": True, **r}
     return {"confirmed": False}
